@@ -295,11 +295,41 @@ Judge._ok_from = _ok_from
 Judge._ok_from_entry = _ok_from_entry
 
 
+def _ir_calls(source):
+    """[(start, end, [(arg_start, arg_end), ...])] for every indexed-repeat( ... ) call, parentheses balanced, quotes respected (calls may nest)."""
+    out = []
+    i = 0
+    while True:
+        i = source.find("indexed-repeat(", i)
+        if i < 0:
+            return out
+        j = i + len("indexed-repeat(")
+        depth, quote, a0, args = 1, None, j, []
+        k = j
+        while k < len(source) and depth:
+            c = source[k]
+            if quote:
+                quote = None if c == quote else quote
+            elif c in "'\"":
+                quote = c
+            elif c == "(":
+                depth += 1
+            elif c == ")":
+                depth -= 1
+                if depth == 0:
+                    args.append((a0, k))
+            elif c == "," and depth == 1:
+                args.append((a0, k))
+                a0 = k + 1
+            k += 1
+        if depth:
+            args.append((a0, len(source)))
+        out.append((i, k, args))
+        i = j
+
+
 def _in_indexed_repeat(source, pos):
-    for m in re.finditer(r"indexed-repeat\([^)]*\)", source):
-        if m.start() <= pos < m.end():
-            return True
-    return False
+    return any(a <= pos < b for a, b, _ in _ir_calls(source))
 
 
 def _in_instance_predicate(source, pos):
@@ -326,11 +356,14 @@ def _in_instance_predicate(source, pos):
 
 
 def _indexed_repeat_arg(source, pos):
-    """Position (0-based) of the argument of an indexed-repeat() call that holds the reference at `pos`, or None."""
-    for m in re.finditer(r"indexed-repeat\(([^)]*)\)", source):
-        if m.start() <= pos < m.end():
-            return source[m.start(1):pos].count(",")
-    return None
+    """Position (0-based) of the argument of the innermost indexed-repeat() call that holds the reference at `pos`, or None."""
+    best = None
+    for a, b, args in _ir_calls(source):
+        if a <= pos < b:
+            for n, (x, y) in enumerate(args):
+                if x <= pos < y:
+                    best = n
+    return best
 
 
 def _relation(owner, t):
@@ -631,6 +664,31 @@ def indexed_repeat_forms():
                 yield f, f"indexed-repeat|depth{depth}|{where}|{'pair' if pair else 'single'}"
 
 
+def multi_call_forms():
+    """Several indexed-repeat() calls in one cell, with ordinary references before, between and after them, an index argument that itself
+    contains parentheses (position(..)), and one name used in several arguments: every reference is judged by the place where it is written."""
+    exprs = [
+        "indexed-repeat(${ma}, ${mr}, 1) + indexed-repeat(${mb}, ${mr}, 2) + ${mc}",
+        "indexed-repeat(${ma}, ${mr}, 1) + indexed-repeat(${mb}, ${mr}, ${mpos})",
+        "indexed-repeat(${ma}, ${mr}, 1) + ${mc} + indexed-repeat(${mb}, ${mr}, 2)",
+        "${mc} + indexed-repeat(${ma}, ${mr}, ${mpos}) + ${mc}",
+        "indexed-repeat(${ma}, ${mr}, 1) + indexed-repeat(${mb}, ${mr}, 2) + indexed-repeat(${mc}, ${mr}, 3)",
+        "indexed-repeat(${ma}, ${mr}, position(..) - 1) + ${mc}",
+        "indexed-repeat(${ma}, ${mr}, ${ma})",
+        "if(${mc} > 1, indexed-repeat(${ma}, ${mr}, ${mc} - 1), ${mb}) - ${mpos}",
+        "concat(indexed-repeat(${ma}, ${mr}, 1), ')', ${mc}, indexed-repeat(${mb}, ${mr}, 2), ${mpos})",
+        "indexed-repeat(${ma}, ${mr}, count(${mr})) + ${mb}",
+    ]
+    for k, expr in enumerate(exprs):
+        for col in ("calculation", "relevant", "constraint"):
+            kids = [Row("q", "integer", n, {"label": n}) for n in ("ma", "mb", "mc", "mpos")]
+            kids.append(Row("q", "calculate" if col == "calculation" else "integer", "mk", {col: expr} if col == "calculation" else {"label": "k", col: expr}))
+            f = Form()
+            f.survey = [Row("repeat", "begin repeat", "mr", {"label": "R"}, kids)]
+            f.settings = {"form_id": "mir"}
+            yield f, f"multi-call|{k}|{col}"
+
+
 def lone_cell_forms():
     """One reference in one cell of an otherwise reference-free form, per cell kind and owner kind: whatever a cell needs declared (the last-saved instance) must not depend on some other cell asking for it too."""
     qcols = ["label", "hint", "guidance_hint", "constraint_message", "required_message", "relevant", "constraint", "required", "read_only", "calculation", "default", "choice_filter", "seed",
@@ -828,6 +886,10 @@ def run_shard(ctx):
         if ctx.mine(k):
             ctx.ctr("container_target_forms")
             check_form(ctx, form, "container-target", sig)
+    for k, (form, sig) in enumerate(multi_call_forms()):
+        if ctx.mine(k):
+            ctx.ctr("indexed_repeat_forms")
+            check_form(ctx, form, "indexed-repeat", sig)
     for k, (form, sig) in enumerate(indexed_repeat_forms()):
         if ctx.mine(k):
             ctx.ctr("indexed_repeat_forms")
